@@ -6,7 +6,9 @@
  * fgets(s, n, f): either returns NULL -- end of file or read error, which of the two is remembered for ferror --
  *          leaving s untouched, or stores an ARBITRARY line: L characters, 1 <= L <= min(n - 1, KEYS_LINEMAX),
  *          arbitrary bytes (NUL bytes included: a binary file) except that a '\n' can only be the last one (fgets
- *          stops after a newline), then a NUL; returns s.  At most KEYS_NLINES lines are delivered, then NULL.
+ *          stops after a newline), then a NUL; returns s.  At most KEYS_NLINES lines are delivered, then NULL
+ *          (-DKEYS_UNBOUNDED: any number of lines; the ghost `remaining`, arbitrary at the start, counts the lines
+ *          the file still holds and is the termination measure of the caller's loop).
  *          So every key file of at most KEYS_NLINES lines with lines of at most KEYS_LINEMAX characters is
  *          covered, including an unterminated last line and a line that fills the caller's buffer (when
  *          KEYS_LINEMAX >= n - 1).
@@ -57,7 +59,12 @@ fgets(char * s, int n, FILE * f)
 	 * caller's line loop there; a counter of delivered lines is symbolic after the first merge.
 	 */
 	g_aws_stdio.fgets_calls++;
+#ifdef KEYS_UNBOUNDED
+	/* files of any length: `remaining` (arbitrary at the start) counts the lines the file still holds */
+	if (g_aws_stdio.remaining == 0 || nondet_int()) {
+#else
 	if (g_aws_stdio.fgets_calls > KEYS_NLINES || nondet_int()) {
+#endif
 		/* end of file, or a read error */
 		g_aws_stdio.err = (nondet_int() != 0);
 		if (g_aws_stdio.err)
@@ -65,6 +72,9 @@ fgets(char * s, int n, FILE * f)
 		return (NULL);
 	}
 	g_aws_stdio.lines++;
+#ifdef KEYS_UNBOUNDED
+	g_aws_stdio.remaining--;
+#endif
 	cap = ((size_t)n - 1 < KEYS_LINEMAX) ? (size_t)n - 1 : KEYS_LINEMAX;
 	L = nondet_size_t();
 	__CPROVER_assume(L >= 1 && L <= cap);
